@@ -138,6 +138,18 @@ func (m *ModuleAuthJWT) validateToken(token string, rule *AuthJWTRule) error {
 			if exp, ok := claims["exp"].(float64); ok && exp < 1 {
 				continue
 			}
+
+			// jwt-go converts time claims with int64(float64); the result is arbitrary for a
+			// value outside the int64 range (a far-future "nbf" would pass).
+			outOfRange := false
+			for _, name := range []string{"exp", "nbf", "iat"} {
+				if v, ok := claims[name].(float64); ok && (v >= 1<<63 || v < -(1<<63)) {
+					outOfRange = true
+				}
+			}
+			if outOfRange {
+				continue
+			}
 		}
 
 		// Both signature and time based claims "exp, iat, nbf" are valid.
